@@ -17,7 +17,13 @@ def main():
     from .report import Report, VIOLATION
     rep = Report(prop, "quick")
     mod = importlib.import_module("rules.%s" % prop)
-    mod.run(Ctx(), rep, "quick")
+    try:
+        ctx = Ctx()
+        mod.run(ctx, rep, "quick")
+        from . import darule
+        darule.apply(ctx, rep)
+    except Exception as e:      # a later rule lost its anchor on this tree: the instances decided before that still stand
+        print("replay: the run stopped early (%s: %s); instances decided before that are used" % (type(e).__name__, e))
     hits = [i for i in rep.instances if i.rule == rule and i.key == key]
     if not hits:
         print("replay: instance %s / %s no longer exists on the current tree" % (rule, key))
